@@ -11,6 +11,7 @@ CONSTANTS
   AllowRst = TRUE
   AllowTClose = FALSE
   AllowCRst = FALSE
+  Planned = TRUE
   Timeout = 2
   MaxNow = 3
   DrainMode = "raw"
